@@ -33,8 +33,12 @@
   (ite (isCh31 (eff31_S c))
        (roundup31 (rmin (* 1.08 (+ (mimpact31 c) (mexpl31 c))) 10.0))
        (roundup31 (rmin (+ (mimpact31 c) (mexpl31 c)) 10.0))))
-(define-fun envFrom31 ((ik Int) (c CVSS31)) Int
-  (ite (<= (mimpact31 c) 0.0) 0 (roundup31 (* (/ (to_real ik) 10.0) (tw31 c)))))
+; the zero-impact flag and the outer stage as a function of (flag, inner value, temporal metrics):
+; the flag and the inner value are the two cut points of the case split (DESIGN 3.3)
+(define-fun envZero31 ((c CVSS31)) Bool (<= (mimpact31 c) 0.0))
+(define-fun envFromZ31 ((z Bool) (ik Int) (c CVSS31)) Int
+  (ite z 0 (roundup31 (* (/ (to_real ik) 10.0) (tw31 c)))))
+(define-fun envFrom31 ((ik Int) (c CVSS31)) Int (envFromZ31 (envZero31 c) ik c))
 (define-fun env31K ((c CVSS31)) Int (envFrom31 (envInner31K c) c))
 
 ; ---- ParseVector (C01, C06, C13, C18): reference fold over the '/'-separated elements ----
